@@ -185,6 +185,113 @@ def find_refuting_script(fn, rng):
     return None
 
 
+PROBE_SRC = '''
+import torch
+import numpy as np
+
+def w_contiguous(x):
+    y = x[..., 0, :].contiguous()
+    y[0] = 1
+    return y
+def w_view(x):
+    y = x.view(-1)
+    y += 1
+def w_reshape(x):
+    y = x.reshape(-1)
+    y *= 2
+def w_squeeze(x):
+    y = x.squeeze(0).unsqueeze(0)
+    y[0] = 0
+def w_T(x):
+    y = x.T
+    y[0] = 0
+def w_expand(x):
+    y = x.expand(2, -1)
+    y.mul_(2)
+def w_detach(x):
+    y = x.detach()
+    y.nan_to_num_()
+def w_as_tensor(x):
+    y = torch.as_tensor(x)
+    y[0] = 0
+def w_numpy(x):
+    y = x.numpy()
+    y[0] = 0
+def w_from_numpy(x):
+    y = torch.from_numpy(x)
+    y[0] = 0
+def w_to(x):
+    y = x.to(torch.float32)
+    y[0] = 0
+def w_out(x, z):
+    torch.nan_to_num(z, out=x)
+def w_slice(x):
+    y = x[1:]
+    y -= 1
+def w_cached_entry(d):
+    s = d[0].copy()
+    s["a"] -= 1
+def w_cached_dict(d):
+    s = d[0]
+    s["a"] = torch.zeros(1)
+def a_clone(x):
+    y = x[..., 0, :].clone()
+    y[0] = 1
+    return y
+def a_copy(x):
+    y = x.numpy().copy()
+    y[0] = 0
+def a_arith(x):
+    y = x * 2
+    y += 1
+def a_tensor(x):
+    y = torch.tensor([1.0])
+    y[0] = 0
+def a_nparray(x):
+    y = np.array(x)
+    y[0] = 0
+def a_rebind(d):
+    s = d[0].copy()
+    s["a"] = s["a"] - 1
+def u_method(x):
+    return x.frobnicate()
+def u_function(x):
+    return torch.frobnicate(x)
+def u_local_call(x, f):
+    return f(x)
+'''
+
+
+def probe_table(run, tr):
+    """The operation table is fail-closed and classifies the view-like operations as may-alias: tiny probe
+    functions are translated and judged by the Python-side solver (the same constraints the Coq checker
+    verifies): w_* (a write through contiguous / view / reshape / squeeze / .T / expand / detach / as_tensor /
+    .numpy() / from_numpy / .to / out= / slicing / an augmented assignment on an entry of a shallow-copied
+    cached dict) must be REJECTED, a_* (clone, copy, arithmetic, torch.tensor, np.array, rebinding) accepted,
+    u_* (unknown method / function / callable) outside the fragment."""
+    d = core.scratch_dir("sv_c11probe_")
+    bad = []
+    try:
+        path = Path(d) / "probe.py"
+        path.write_text(PROBE_SRC)
+        src = tr.Source(core.REPO)
+        mod = tr.Module("probe", path)
+        for name, fd in mod.funcs.items():
+            kind = name.split("_")[0]
+            try:
+                fn = tr.Translator(src, name).translate(mod, fd, None)
+                got = "w" if tr.analysis_facts(fn)["written_params"] else "a"
+            except tr.Unsupported:
+                got = "u"
+            if got != kind:
+                bad.append(f"{name}: expected {kind}, got {got}")
+    finally:
+        shutil.rmtree(d, ignore_errors=True)
+    run.obligation("operation table: view-like operations may alias (write-through probes rejected), only clone / copy "
+                   "/ arithmetic / constructors are fresh, unknown operations are outside the fragment (fail-closed)",
+                   not bad, "; ".join(bad))
+
+
 def static_part(run: core.Run, tr):
     """Returns {target name: {translated, accepted, closed, nowrite, written, result_params}}."""
     t0 = time.time()
@@ -257,8 +364,12 @@ def static_part(run: core.Run, tr):
                          "(* copy for inspection; compiled per run in a scratch directory with -Q <dir> C11Gen *)\n" + obl)
         rc, out = coqc_in(d, "C11_Oblig.v")
         blocks = core.parse_print_assumptions(out) if rc == 0 else []
-        ok = rc == 0 and len(blocks) == len(accepted) + len(refuted) and not any(blocks)
+        ok = rc == 0 and len(blocks) == len(accepted) + len(refuted) + 1 and not any(blocks)
         if ok:
+            run.obligation(f"history_pure: after ANY sequence of calls of the {len(accepted)} accepted regenerated "
+                           "programs every object existing before it (labels, cache, cached samples) has the same "
+                           "value to any depth, and no later call alters a sample handed out earlier "
+                           "(all_accepted + history_value / earlier_results_stable)", True)
             for n in accepted:
                 run.obligation(f"accepted_{n} / pure_{n}: verified checker accepts the regenerated program "
                                "(vm_compute) and fn_accepted_sound applies", True)
@@ -389,6 +500,15 @@ def fn_cases(name, rng):
         a = {"image": g.gen_image(rng, dtype="float32"), "instances": g.gen_kps(rng, [1, n_inst], n_nodes, W, H),
              "affine_p": rng.choice([0.0, 1.0]), "scale": {"t": "tuple", "items": [0.9, 1.1]},
              "erase_p": rng.choice([0.0, 1.0])}
+    elif name == "make_grid_vectors":
+        a = {"image_height": H, "image_width": W, "output_stride": stride}
+    elif name == "gaussian_pdf":
+        a = {"x": {"t": "image", "shape": [rng.randint(1, 4), rng.randint(1, 4)], "dtype": "float32",
+                   "seed": rng.randrange(1 << 30)}, "sigma": rng.choice([1.0, 2.5])}
+    elif name == "find_padding_for_stride":
+        a = {"image_height": H, "image_width": W, "max_stride": rng.choice([1, 2, 8, 16])}
+    elif name in ("get_max_instances", "get_max_height_width"):
+        a = {"labels": {"t": "labels", "labels": D.gen_label_set(rng)}}
     if a is None:
         return None
     return {"fn": name, "args": a, "torch_seed": rng.randrange(1 << 30)}
@@ -743,6 +863,29 @@ def run_dataset_case(case, real_sio=None, tmp_root=None):
                 fails.append({"clause": "same index gives the same sample (bit for bit) whatever was read before",
                               "detail": f"index {i}: read at step {first[i][0]} and at step {step} differ in "
                                         f"{D.first_difference(first[i][1], sample)}", "f5": False, "index": i})
+        # every index once more (re-read check) + what the Coq dataset model predicts (Dataset.run_ds)
+        info["max_instances"] = int(ds.max_instances)
+        info["all"] = []
+        import torch as _t
+        for i in range(want_len):
+            smp = ds[i]
+            if i in first and not D.same_value(first[i][1], smp):
+                fails.append({"clause": "same index gives the same sample (bit for bit) whatever was read before",
+                              "detail": f"index {i}: final sweep differs from the read at step {first[i][0]} in "
+                                        f"{D.first_difference(first[i][1], smp)}", "f5": False, "index": i})
+            if real_sio is None:
+                fi_ = inst_idx[i][0] if cls_name == "CenteredInstanceDataset" else lf_idx[i]
+                fr = ls["frames"][fi_]
+                got = (int(smp["video_idx"]), int(smp["frame_idx"]))
+                if got != (fr.get("video", 0), fr.get("frame_idx", fi_)):
+                    fails.append({"clause": "sample carries the video / frame index of its labelled frame",
+                                  "detail": f"index {i}: {got} vs {(fr.get('video', 0), fr.get('frame_idx', fi_))}",
+                                  "f5": False, "index": i})
+            if cls_name == "CenteredInstanceDataset":
+                info["all"].append({"rel": D.to_json(smp["instance"][0] - smp["centroid"][0]),
+                                    "cen_nan": bool(_t.isnan(smp["centroid"]).any())})
+            else:
+                info["all"].append({"rows": D.to_json(smp["instances"][0]), "n": int(smp["num_instances"])})
         # a second dataset object over freshly built labels, read in another order
         if want_len and case.get("second", True):
             labels2 = D.build_labels(ls, real_sio)
@@ -769,6 +912,98 @@ def run_dataset_case(case, real_sio=None, tmp_root=None):
     finally:
         shutil.rmtree(chunk, ignore_errors=True)
     return fails, info
+
+
+def code_is_fixed() -> bool:
+    """which behaviour does generate_centroids have?  (replayed witness of F5)"""
+    import numpy as np
+    import torch
+    from sleap_nn.data.instance_centroids import generate_centroids
+    w = torch.tensor([[[np.nan, np.nan], [4.0, 6.0]]])
+    generate_centroids(w, anchor_ind=0)
+    return bool(torch.isnan(w[0, 0]).all())
+
+
+def ds_model_part(run, idx_cases):
+    """Dataset.run_ds (Coq: user-instance filter, index lists, max_instances, process_lf rows and padding,
+    num_instances, scale, the centered-instance dataset's source instance and generate_centroids) against what
+    the real datasets returned for EVERY index."""
+    import numpy as np
+    fixed = code_is_fixed()
+    groups = {}
+    for c, info in idx_cases:
+        if "all" not in info:
+            continue
+        ls, cfg = c["labels"], c["cfg"]
+        eff = 1.0 if cfg["max_hw"][0] is None else min(cfg["max_hw"][0] / ls["H"], cfg["max_hw"][1] / ls["W"])
+        s = eff * cfg["scale"]
+        key = json.dumps([ls["frames"], cfg["user_instances_only"], s, cfg["anchor"]], sort_keys=True)
+        groups.setdefault(key, (ls, cfg["user_instances_only"], s, cfg["anchor"], []))[4].append((c, info))
+    gl = list(groups.values())
+
+    def kp(p):
+        return "None" if p is None else f"(Some ({core.cq(D.frac(p[0]))}, {core.cq(D.frac(p[1]))}))"
+
+    def term(ls, uo, s, anchor):
+        raw = core.clist(ls["frames"], lambda fr: core.clist(
+            fr["insts"], lambda i: f"({core.cbool(not i['pred'])}, {core.clist(i['pts'], kp)})"))
+        return f"({core.cbool(fixed)}, {core.copt(anchor, core.cnat)}, {core.cbool(uo)}, {core.cq(D.frac(s))}, {raw})"
+    pre = ("From SV Require Import C11.Values C11.Dataset.\nFrom Coq Require Import List QArith.\nImport ListNotations.\n"
+           "Definition rkp := ropt (rpair rQ rQ).\n")
+    model = core.coq_eval_sharded(
+        pre, [term(ls, uo, s, a) for ls, uo, s, a, _ in gl], "run_ds",
+        "rpair (rtriple (rlist rnat) (rlist (rpair rnat rnat)) rnat) "
+        "(rpair (rlist (rpair (rlist (rlist rkp)) rnat)) (rlist (rpair rkp (rlist rkp))))", shard=60) if gl else []
+
+    def kp_close(m, x, shift=None):
+        """model keypoint (None / [qx, qy]) vs implementation [x, y] (None = NaN)"""
+        if m is None:
+            return x[0] is None and x[1] is None
+        if x[0] is None or x[1] is None:
+            return False
+        mv = [float(core.frac(m[0])), float(core.frac(m[1]))]
+        if shift is not None:
+            mv = [mv[0] - shift[0], mv[1] - shift[1]]
+        return bool(np.allclose(mv, x, atol=1e-3, rtol=1e-4))
+    bad = []
+    n_idx = 0
+    for (ls, uo, s, anchor, members), ((mlf, mil, mmax), (mfs, mcs)) in zip(gl, model):
+        for c, info in members:
+            why = None
+            if info["lf_idx_list"] != mlf or info["max_instances"] != mmax:
+                why = f"lf_idx_list / max_instances: impl {info['lf_idx_list']}, {info['max_instances']} model {mlf}, {mmax}"
+            elif c["cls"] == "CenteredInstanceDataset":
+                if info["instance_idx_list"] != mil or len(info["all"]) != len(mcs):
+                    why = f"instance_idx_list: impl {info['instance_idx_list']} model {mil}"
+                else:
+                    for k, (got, (mc, mk)) in enumerate(zip(info["all"], mcs)):
+                        n_idx += 1
+                        if mc is None or got["cen_nan"]:
+                            why = f"index {k}: centroid missing (model {mc}, impl NaN={got['cen_nan']})"
+                            break
+                        sh = [float(core.frac(mc[0])), float(core.frac(mc[1]))]
+                        if len(mk) != len(got["rel"]) or not all(kp_close(m, x, sh) for m, x in zip(mk, got["rel"])):
+                            why = f"index {k}: instance - centroid: impl {got['rel']} model {mk} - {mc}"
+                            break
+            else:
+                if len(info["all"]) != len(mfs):
+                    why = f"length {len(info['all'])} vs model {len(mfs)}"
+                else:
+                    for k, (got, (rows, n)) in enumerate(zip(info["all"], mfs)):
+                        n_idx += 1
+                        if got["n"] != n or len(got["rows"]) != len(rows) or not all(
+                                len(r) == len(g) and all(kp_close(m, x) for m, x in zip(r, g))
+                                for r, g in zip(rows, got["rows"])):
+                            why = f"index {k}: impl n={got['n']} rows {got['rows']} model n={n} rows {rows}"
+                            break
+            if why:
+                bad.append({"cls": c["cls"], "np_chunks": c["np_chunks"], "uo": uo, "scale": s, "anchor": anchor,
+                            "frames": ls["frames"], "why": why[:700]})
+    run.obligation("correspondence: Dataset.run_ds (Coq) == the datasets: index lists, max_instances, and for every "
+                   "index the `instances` rows / NaN padding / num_instances (frame-level classes) or the cropped "
+                   "instance relative to its centroid (centered-instance)", not bad, json.dumps(bad[:2])[:900])
+    run.coverage["dataset_model"] = {"label_set_x_config_groups": len(gl), "indices_compared": n_idx,
+                                     "fixed": fixed}
 
 
 def gen_dataset_case(rng, cls_name, np_chunks, ls=None):
@@ -843,6 +1078,26 @@ def dataset_part(run, tier):
             real_n += 1
             run.case({"real": True, "cls": cls_name, "labels": ls, "cfg": c["cfg"]}, nontrivial=True)
             report_dataset_failures(run, c, fails, failing)
+    # find_instance_crop_size scales `inst.numpy()` in place: harmless only because sleap-io's Instance.numpy()
+    # returns a copy (its documented contract); checked on real sleap-io objects (oracle only, not translated)
+    from sleap_nn.data.instance_cropping import find_instance_crop_size
+    import numpy as _np
+    for k in range(2 if tier == "quick" else 12):
+        ls = D.gen_label_set(rng)
+        labels = D.build_labels(ls, (sio, asset))
+        objs = [list(lf.instances) for lf in labels]
+        before = [[i.numpy().copy() for i in o] for o in objs]
+        shared = any(_np.shares_memory(i.numpy(), i.numpy()) for o in objs for i in o)
+        args = {"padding": rng.choice([0, 4]), "maximum_stride": rng.choice([2, 16]),
+                "input_scaling": rng.choice([0.5, 2.0]), "min_crop_size": rng.choice([None, 5])}
+        find_instance_crop_size(labels, **args)
+        changed = [(fi, ii) for fi, o in enumerate(objs) for ii, i in enumerate(o)
+                   if not _np.array_equal(i.numpy(), before[fi][ii], equal_nan=True)]
+        run.case({"fn": "find_instance_crop_size", "labels": ls, "args": args}, nontrivial=True)
+        if changed or shared:
+            run.violation("failing-input", {"what": "find_instance_crop_size altered the labels (real sleap-io objects)",
+                                            "labels": ls, "args": args, "changed": changed[:4],
+                                            "oracle_clause": "labels unchanged"})
     # index lists: Coq model (Values.lf_idx_list / instance_idx_list) vs the datasets' own lists
     uniq = {}
     for c, info in idx_cases:
@@ -864,6 +1119,7 @@ def dataset_part(run, tier):
             bad.append({"pattern": pat, "model": [mlf, mil], "impl": [lfl, il]})
     run.obligation("correspondence: lf_idx_list / instance_idx_list (Coq) == the datasets' index lists", not bad,
                    json.dumps(bad[:2])[:500])
+    ds_model_part(run, idx_cases)
     run.coverage["datasets"] = {"label_sets": n_sets, "dataset_histories": len(cases), "reads": n_reads,
                                 "real_sleap_io_histories": real_n, "index_list_patterns": len(pats),
                                 "wall_s": round(time.time() - t0, 1)}
@@ -895,6 +1151,7 @@ def check(run: core.Run) -> int:
     run.build_and_prove(PROP_FILES)
     tr = load_translator()
     verdict, fns = static_part(run, tr)
+    probe_table(run, tr)
     core.impl_env_setup()
     import torch
     torch.manual_seed(run.seed)
@@ -903,11 +1160,7 @@ def check(run: core.Run) -> int:
     failing_ds = dataset_part(run, run.tier)
 
     # which behaviour does the code have?  (replayed witness of F5)
-    import numpy as np
-    from sleap_nn.data.instance_centroids import generate_centroids
-    w = torch.tensor([[[np.nan, np.nan], [4.0, 6.0]]])
-    generate_centroids(w, anchor_ind=0)
-    code_fixed = bool(torch.isnan(w[0, 0]).all())
+    code_fixed = code_is_fixed()
     run.coverage["generate_centroids_writes_through_anchor_view"] = not code_fixed
     centroid_model_part(run, code_fixed, run.tier)
 
@@ -939,7 +1192,10 @@ def check(run: core.Run) -> int:
         "the AliasIR translation over-approximates the Python semantics of the translated bodies (trusted: "
         "translator + operation table; validated by the observed-within-predicted tie on every run)",
         "kornia / torchvision functional calls are fresh-result oracles of the operation table",
-        "label sets: every frame has at least one user instance; missing keypoints are (NaN, NaN)",
+        "label sets: every frame has at least one instance (user or predicted); missing keypoints are (NaN, NaN)",
+        "same_index_same_sample: the interpreter's read refines exec of the translated body and is insensitive to "
+        "objects unreachable from its arguments (explicit hypotheses of the theorem)",
+        "sleap-io Instance.numpy() returns a copy (find_instance_crop_size; checked on real objects every run)",
     ]
     run.trusted += ["translator/c11_alias2coq.py (ast -> AliasIR, operation table); torch / numpy view semantics "
                     "as classified by the table, cross-checked by storage data_ptr observations"]
@@ -948,7 +1204,9 @@ def check(run: core.Run) -> int:
     return run.finish(explanation=(
         "proof: soundness of the alias-certificate checker over the heap semantics (C11/Props.v), instantiated per "
         "run on the AliasIR programs regenerated from the source (accepted_<f>/pure_<f>, or refuted_<f> for a rejected "
-        "target); history independence from read purity; value-level theorems for generate_centroids / missing stays "
+        "target); histories over the heap (history_pure per run: any sequence of accepted calls leaves cache, cached "
+        "samples and labels unchanged, earlier samples are never altered; same_index_same_sample); dataset selection "
+        "model (user filter, index lists, process_lf rows/padding, centered source instance) with lengths; value-level theorems for generate_centroids / missing stays "
         "missing / dataset length with the F5 refuted-partial-fixed triple.  tie: translator + operation table "
         "validated by observed-within-predicted argument writes and storage sharing; model/code correspondence of "
         "gen_centroid and the index lists; dataset histories (bit-for-bit re-reads, labels unchanged, missing stays "
